@@ -1,4 +1,5 @@
 import Fabio.Generated.C07
+import Fabio.Props.C07Xlate
 /-!
 CHANGE DETECTORS for C07 (`"pins_module"` in checks/C07.json): the shape of sequential, deterministic code whose
 input/output behaviour a correspondence stream compares with the model on every run. When one of these stops
